@@ -357,7 +357,18 @@ class Harness:
         fn, _, _ = self.make_payload(sid, spec)
         flav = FLAVOURS[spec["flavour"]]
         falsy = spec.get("falsy", False)
-        if spec["flavour"] == "threading":
+        if spec.get("bad_run"):
+            # a service that cannot even be adopted: looking up its run attribute fails (the
+            # spec gives it "immediate": how).  It happens inside the service loop, a trio payload.
+            creator = threading.get_ident()
+
+            class Svc:
+                @property
+                def run(self):
+                    if threading.get_ident() == creator:
+                        return lambda: None  # the hasattr() check when the instance is made
+                    return fn()
+        elif spec["flavour"] == "threading":
             class Svc:
                 def run(self):
                     return fn()
